@@ -173,6 +173,7 @@ func (s *storage) setTerm(term uint64) {
 		if err := s.termVal.set(term, 0); err != nil {
 			panic(opError(err, "storage.setTermVote(%d, %d)", term, 0))
 		}
+		verifPoint("term.persisted")
 		s.term, s.votedFor = term, 0
 	}
 }
@@ -189,6 +190,7 @@ func (s *storage) setVotedFor(term, candidate uint64) {
 		if err != nil {
 			panic(opError(err, "storage.setTermVote(%d, %d)", term, candidate))
 		}
+		verifPoint("vote.persisted")
 		s.term, s.votedFor = term, candidate
 	}
 }
@@ -297,7 +299,9 @@ func (s *storage) bootstrap(config Config) (err error) {
 		}
 	}()
 	s.appendEntry(config.encode())
+	verifPoint("bootstrap.appended")
 	s.commitLog(1)
+	verifPoint("bootstrap.flushed")
 	s.setTerm(1)
 	s.lastLogIndex, s.lastLogTerm = config.Index, config.Term
 	return nil
